@@ -218,7 +218,7 @@ class C05(Property):
         return sorted([k, sorted(g['tags']), [str(g['v'])]] for k, g in want.items())
 
     # ---- implementation ------------------------------------------------------------------
-    def run_stream(self, o, data, k):
+    def run_stream(self, o, data, k, pieces=False):
         from edxml.cli.edxml_merge import EDXMLEventMerger, BufferingEDXMLEventMerger
         import edxml
         old = sys.stdout
@@ -230,7 +230,13 @@ class C05(Property):
                     m.parse(io.BytesIO(data))
             else:
                 with BufferingEDXMLEventMerger(k, None) as m:
-                    m.feed(data)
+                    if pieces:
+                        # the same bytes, handed over element by element (cut behind every '>')
+                        for piece in data.replace(b'>', b'>\x00').split(b'\x00'):
+                            if piece:
+                                m.feed(piece)
+                    else:
+                        m.feed(data)
         finally:
             sys.stdout = old
         coll = edxml.EventCollection.from_edxml(out.buffer.getvalue())
@@ -279,6 +285,10 @@ class C05(Property):
                 res[str(k)] = {
                     'written': sorted((c04.view_of(e) for e in coll), key=json.dumps),
                     'resolved': sorted((c04.view_of(e) for e in coll.resolve_collisions()), key=json.dumps)}
+                if k is not None:
+                    # what the buffering merger writes does not depend on how its input is cut into chunks (C06)
+                    again = sorted((c04.view_of(e) for e in self.run_stream(o, data, k, pieces=True)), key=json.dumps)
+                    res[str(k)]['chunk_same'] = again == res[str(k)]['written']
             except Exception as ex:
                 res[str(k)] = {'err': 'foreign:' + type(ex).__name__}
         return res
@@ -317,6 +327,8 @@ class C05(Property):
             else:
                 res[key] = {'written': sorted((c04.model_view(e) for e in w['ok']), key=json.dumps),
                             'resolved': sorted((c04.model_view(e) for e in r['ok']), key=json.dumps)}
+                if key != 'None':
+                    res[key]['chunk_same'] = True
         return res
 
     # ---- oracle --------------------------------------------------------------------------
@@ -344,6 +356,9 @@ class C05(Property):
                 if r['resolved'] != want:
                     return ('stream merger with buffer size %s yields other logical events than merging the input at once: '
                             '%r vs %r' % (k, r['resolved'], want))
+                if r.get('chunk_same', True) is not True:
+                    return ('stream merger with buffer size %s writes other events when the same input is fed element by element '
+                            'than when it is fed at once' % k)
             return None
         outs = obs['outs']
         n = len(case['events'])
@@ -385,6 +400,13 @@ class C05(Property):
             c = json.loads(json.dumps(case))
             if c['kind'] == 'runs':
                 c['events'] = c04.gen_group(rng, c['et'], len(c['events']))
+            elif c.get('upgrade'):
+                # events that use the property the upgrade brings stay behind the upgrade
+                at = c['upgrade']['at']
+                first, second = c['events'][:at], c['events'][at:]
+                rng.shuffle(first)
+                rng.shuffle(second)
+                c['events'] = first + second
             else:
                 rng.shuffle(c['events'])
             out.append(c)
@@ -404,6 +426,9 @@ class C05(Property):
                 if len(case['events']) > 1:
                     c = json.loads(json.dumps(case))
                     del c['events'][i]
+                    if c.get('upgrade') and i < c['upgrade']['at']:
+                        # the upgrade stays where it was between the events
+                        c['upgrade']['at'] -= 1
                     yield c
         for i, p in enumerate(case['et']['props']):
             if p['merge'] != 'match' and p['name'] != case['et']['vp']:
